@@ -380,6 +380,23 @@ func TestVerifC13(t *testing.T) {
 					r.Violation("sign-wrappers-differ-from-SignHashed:argument-shape", hk.D{"priv": hk.Hex(priv), "priv_len": len(priv), "msg_is_nil": msg == nil, "signhashed": zvHexOrNil(rh) + "," + zvErrStr(eh), "signza": zvHexOrNil(rz) + "," + zvErrStr(ez), "sign": zvHexOrNil(ri) + "," + zvErrStr(ei)})
 				}
 			}
+			// ZA values of unusual shape handed to the ZA-level entry points (nil, empty, shorter, longer than a digest): they
+			// are defined as the hashed entry points on SM3(za || M) whatever za is - nothing is derived in its place
+			for zi, zaV := range [][]byte{nil, {}, za[:31], append(append([]byte{}, za...), 0x01), append(append([]byte{}, za...), za...), rng.Bytes(1)} {
+				eV := ref.SM3(append(append([]byte{}, zaV...), msg...))
+				rh, sh, eh := SignHashed(zvNewScript(stream), full, eV)
+				rz, sz, ez := SignZa(zvNewScript(stream), full, zaV, msg)
+				if (eh == nil) != (ez == nil) || !bytes.Equal(rh, rz) || !bytes.Equal(sh, sz) {
+					r.Violation("signza-differs-from-SignHashed-on-SM3(za||M):za-of-unusual-shape", hk.D{"za": zvHexOrNil(zaV), "za_is_nil": zaV == nil, "za_shape_index": zi, "msg": zvHexOrNil(msg), "signhashed": zvHexOrNil(rh) + "," + zvErrStr(eh), "signza": zvHexOrNil(rz) + "," + zvErrStr(ez)})
+				}
+				if eh == nil {
+					vh, _ := VerifyHashed(px, py, eV, rh, sh)
+					vz, _ := VerifyZa(px, py, zaV, msg, rh, sh)
+					if !vh || !vz {
+						r.Violation("verifyza-differs-from-VerifyHashed-on-SM3(za||M):za-of-unusual-shape", hk.D{"za": zvHexOrNil(zaV), "za_is_nil": zaV == nil, "verifyhashed": vh, "verifyza": vz})
+					}
+				}
+			}
 			m := ref.SM2Sign(d, e, stream)
 			if m.R == nil {
 				continue
